@@ -210,6 +210,17 @@ void map_case(i64 e_, i64 f_, i64 g_)
       Calls cf, cg, cf2, cg2, cf3;
       ED src = mk(e), src2 = mk(e), src3 = mk(e);
       ED const r = fcppt::either::map(pass<RV>(src), table<D, D>(f, cf));
+      if constexpr (!RV)
+      {
+        Calls c1, c2;
+        ED lv = mk(e);
+        ED const r1 = fcppt::either::map(lv, table<D, D>(f, c1));
+        bool const unchanged = lv == mk(e);
+        ED const r2 = fcppt::either::map(lv, table<D, D>(f, c2));
+        chk(code(r1) == code(r) && unchanged && code(r2) == code(r), "either::map|non-const-lvalue-argument", [&] {
+          return "map(lvalue " + ename(e) + ", f) = " + ename(code(r1)) + ", argument " + (unchanged ? "unchanged" : "CHANGED") + ", second call = " + ename(code(r2));
+        });
+      }
       chk(code(r) == m1, KEYE(s, "either::map|result"), [&] { return std::string(cat_name(RV)) + " map(" + ename(e) + ", f) = " + ename(code(r)) + ", expected " + ename(m1); });
       chk(cf.exactly(s ? e - 3 : -1), KEYE(s, "either::map|calls"), [&] { return std::string(cat_name(RV)) + " map(" + ename(e) + ", f): " + cf.str(); });
       ED const a = fcppt::either::map(fcppt::either::map(pass<RV>(src2), table<D, D>(f, cf2)), table<D, D>(g, cg));
